@@ -287,13 +287,30 @@ pub fn gen_bigram(rng: &mut Rng, nr: usize, nl: usize, k: usize, mag: i64) -> (S
     };
     let mut rights: Vec<Vec<String>> = vec![];
     let mut lefts: Vec<Vec<String>> = vec![];
+    // a third of the rows repeat an earlier row, entirely or up to two positions: connection ids that share their
+    // feature list (or the part of it that the dual connector pre-sums) collapse to one row of its matrix part
+    let row = |rng: &mut Rng, rows: &Vec<Vec<String>>| -> Vec<String> {
+        if !rows.is_empty() && rng.chance(1, 3) {
+            let mut r = rows[rng.below(rows.len())].clone();
+            for _ in 0..rng.below(3) {
+                if !r.is_empty() {
+                    let p = rng.below(r.len());
+                    r[p] = vocab(rng, p);
+                }
+            }
+            r
+        } else {
+            let len = if rng.chance(1, 4) { rng.below(k + 1) } else { k };
+            (0..len).map(|p| vocab(rng, p)).collect()
+        }
+    };
     for _ in 1..nr {
-        let len = if rng.chance(1, 4) { rng.below(k + 1) } else { k };
-        rights.push((0..len).map(|p| vocab(rng, p)).collect());
+        let r = row(rng, &rights);
+        rights.push(r);
     }
     for _ in 1..nl {
-        let len = if rng.chance(1, 4) { rng.below(k + 1) } else { k };
-        lefts.push((0..len).map(|p| vocab(rng, p)).collect());
+        let r = row(rng, &lefts);
+        lefts.push(r);
     }
     let mut right = String::new();
     for (i, row) in rights.iter().enumerate() {
